@@ -343,6 +343,20 @@ def curated():
         out.append(D(f"merge-own-atmost-{tag}", [d2, fac("g", ["p", "q"]), c2, transition_rep("s", "c", A2)],
                      merge([cross(["d", "g"], ["d", "g"], [["AtMostKInARow", 1, "d", "x"]]), cross(["c", "s"], ["c", "s"])], mode="weight", alignment=al),
                      ["merge", "atmost", "preamble", tag]))
+    # two Excludes of within-trial derived levels that only TOGETHER make a crossing combination impossible (c = r: w = r gives A, w = g gives B)
+    rel3 = fac("k", ["A", "B", "C"], derive("within", ["c", "w"], fn=lambda l, x, y: {"A": x[0] == y[0], "B": x[0] == "r" and y[0] == "g", "C": x[0] == "g" and y[0] == "r"}[l],
+                                            levels=["A", "B", "C"], dep_levels=[A2, A2]))
+    out.append(D("within-exclude-jointly-impossible", [c2, w2_, rel3], cross(["c", "w", "k"], ["c"], [["Exclude", "k", "A"], ["Exclude", "k", "B"]], rcc=False),
+                 ["within", "exclude", "joint-exclude"]))
+    # a WEIGHTED derived level over a weighted factor outside the crossing (the rebuilt derived level must keep its weight)
+    wd_ = fac("d", [["x", 1], ["y", 2]])
+    kw_ = fac("k", [["S", 2], ["B", 1]], derive("within", ["d"], fn=lambda l, x: (x[0] == "y") == (l == "S"), levels=["S", "B"], dep_levels=[["x", "y"]]))
+    out.append(D("weighted-derived-over-weighted-uncrossed", [wd_, kw_], cross(["d", "k"], ["k"]), ["weight", "weight-uncrossed", "within", "derived-crossed", "weighted-derived"]))
+    out.append(D("weighted-derived-over-unweighted", [d2, kw_], cross(["d", "k"], ["k"]), ["weight", "within", "derived-crossed", "weighted-derived"]))
+    # a within-trial factor over a 3-level source and a transition over it, both crossed, repeated with a partial last run
+    big_ = fac("k", ["yes", "no"], derive("within", ["e"], fn=lambda l, x: (x[0] == "b") == (l == "yes"), levels=["yes", "no"], dep_levels=[A3]))
+    out.append(D("repeat-within+transition-crossed-min7", [e3, big_, transition_rep("s", "k", ["yes", "no"])],
+                 repeat(cross(["e", "k", "s"], ["k", "s"]), [["MinimumTrials", 7]]), ["repeat", "within", "transition", "derived-crossed", "preamble", "mintrials", "partial"]))
     # --- continuous factors next to the discrete design (C08, C20 only: SC.design_space(continuous=True))
     wdu_ = fac("d", [["x", 2], ["y", 1]])
     for nz in (1, 2):
